@@ -88,7 +88,7 @@ class Vocab:
         }
         self.objs = {
             'int': lambda: 3, 'str': lambda: 'a', 'none': lambda: None,
-            'list_A': lambda: [A(), B()], 'list_str': lambda: ['a', 'b'], 'list_empty': lambda: [],
+            'list_A': lambda: [B(), B()], 'list_str': lambda: ['a', 'b'], 'list_empty': lambda: [],
             'dict_ok': lambda: {'k': [A()]}, 'dict_bad': lambda: {'k': ['x']},
             'tuple_ok': lambda: (1, 's', B()), 'tuple_bad': lambda: (1, 2, 3), 'tuple_A': lambda: (A(), B()),
             'set_B': lambda: {B()}, 'nested_ok': lambda: [{1: (A(), B())}], 'nested_bad': lambda: [{1: (2,)}],
@@ -369,12 +369,13 @@ def run_concurrent(sc, chooser_spec, gran):
     s.run(hang_timeout=60.0)
     res = {'rle': s.rle, 'decisions': s.decisions, 'switches': s.switches, 'fatal': s.fatal,
            'counts': [[t.n_any, t.n_focus, t.n_lock] for t in s.threads], 'pool': list(POOL_EVENTS),
-           'locks': s.lock_log[:400], 'diverged': getattr(s.chooser, 'diverged', None),
-           'locs': [{':'.join([k[0][len(PFX):]] + [str(x) for x in k[1:]]): n for k, n in t.locs.items()} for t in s.threads]}
+           'locks': s.lock_log[:400], 'diverged': getattr(s.chooser, 'diverged', None), 'switch_log': s.switch_log[:3000],
+           'locs': [{':'.join([k[0][len(PFX):]] + [str(x) for x in k[1:]]): n for k, n in t.locs.items()
+                     if k is not None and None not in k} for t in s.threads]}
     res['edges'] = lock_edges(s.lock_log)
     if s.fatal is None:
         res['outcome'] = canon(per, ctx, sc.get('queries'))
-        res['messages'] = [o[2] for row in per for o in row if o[0] == 'exc']
+        res['messages'] = [[o[1], o[2]] for row in per for o in row if o[0] == 'exc']
         res['identity'] = identity_classes(sc, per, ctx)
     else:
         res['partial'] = [[o[:2] for o in row] for row in per]
@@ -434,7 +435,8 @@ def judge(sc, res, refset):
         ref_excs = {o[1] for r in refset for row in json.loads(r)['threads'] for o in row if o[0] == 'exc'}
         new = [e for e in excs if e not in ref_excs]
         if new:
-            out.append(('exception:' + new[0], f'exception {new[0]} that no sequential order raises: {res.get("messages", [])[:1]}'))
+            msg = next((m[1] for m in res.get('messages', []) if m[0] == new[0]), '')
+            out.append(('exception:' + new[0], f'exception {new[0]} that no sequential order raises: {msg[:120]!r}'))
         elif not out:
             out.append(('not-serializable', 'per-thread results / final state equal those of NO sequential order of the same operations'))
     return out
@@ -537,9 +539,12 @@ def episode(p):
     refs = reference(sc)
     refset = set(refs)
     stats = {'schedules': 0, 'decisions': 0, 'switches': 0, 'distinct_outcomes': set(), 'distinct_schedules': set(),
-             'kinds': {}, 'contended': 0, 'nonserial': 0, 'lock_edges': set()}
+             'kinds': {}, 'contended': 0, 'nonserial': 0, 'nontrivial': 0, 'lock_edges': set()}
     failures = []
     executed = []
+    verdicts = []
+    rles = []
+    slogs = []
     calib = []
     serials = [['serial', list(o)] for o in itertools.permutations(range(n))]
     explicit = p.get('specs')
@@ -564,26 +569,32 @@ def episode(p):
         key = json.dumps(r.get('rle'))
         if key not in stats['distinct_schedules']:
             stats['distinct_schedules'].add(key)
-            if r.get('switches', 0) >= n:      # beyond the n-1 hand-overs of a serial run: a real preemption/blocking
-                stats['nonserial'] += 1
-            if _contended(r):
-                stats['contended'] += 1
+            ns = r.get('switches', 0) >= n      # beyond the n-1 hand-overs of a serial run: a real preemption/blocking
+            ct = _contended(r)
+            stats['nonserial'] += ns
+            stats['contended'] += ct
+            stats['nontrivial'] += (ns and ct)
         if 'outcome' in r:
             stats['distinct_outcomes'].add(json.dumps(r['outcome'], sort_keys=True))
         bad = judge(sc, r, refset)
+        verdicts.append([k for k, _ in bad])
+        if explicit is not None:
+            rles.append(r.get('rle'))
+            slogs.append(r.get('switch_log'))
         if bad:
             failures.append({'kind': bad[0][0], 'what': bad[0][1], 'all': bad, 'rle': r['rle'], 'spec': spec,
                              'index': len(executed) - 1, 'history': list(executed),
                              'outcome': r.get('outcome') or r.get('partial'), 'fatal': r.get('fatal'),
-                             'messages': r.get('messages'), 'switches': r.get('switches'),
+                             'messages': r.get('messages'), 'switches': r.get('switches'), 'switch_log': r.get('switch_log'),
                              'at': [t.get('at') for t in (r.get('fatal') or {}).get('threads', [])],
                              'locks': r.get('locks', [])[:60]})
-            if r.get('fatal') or len({f['kind'] for f in failures}) >= 3 or len(failures) >= 4:
+            if r.get('fatal') or (explicit is None and (len({f['kind'] for f in failures}) >= 3 or len(failures) >= 4)):
                 break   # after a deadlock/hang the interpreter state is not trustworthy
         if explicit is None and spec[0] == 'serial':
             calib.append({'counts': r['counts'], 'locs': r['locs']})
             if len(calib) == len(serials):
                 specs += schedules(sc, p['seed'], p['budget'], calib)
+    stats['outcomes'] = sorted(stats['distinct_outcomes'])[:40]
     stats['distinct_outcomes'] = len(stats['distinct_outcomes'])
     stats['lock_edges'] = sorted(stats['lock_edges'])
     stats['distinct_schedules'] = len(stats['distinct_schedules'])
@@ -592,7 +603,9 @@ def episode(p):
     stats['calibration'] = calib[0]['counts'] if calib else None
     stats['focus_locations'] = [len(x) for x in calib[0]['locs']] if calib else None
     stats['wall_s'] = round(time.time() - t0, 2)
-    return {'stats': stats, 'failures': failures, 'reference': sorted(refs)[:6], 'last': last,
+    return {'stats': stats, 'failures': failures, 'reference': sorted(refs)[:12], 'last': last,
+            'verdicts': verdicts if explicit is not None else None, 'rles': rles if explicit is not None else None,
+            'switch_logs': slogs if explicit is not None else None,
             'last_verdict': judge(sc, last, refset) if last else None}
 
 
